@@ -101,6 +101,21 @@ PROPS = {
         "assumptions": TRUST + ["behavioural equivalence is decided only for the closed, terminating executable sub-grammar"],
         "required_reach": {"quick": CODE_REACH + ["changed-but-equivalent"]},
     },
+    "C04": {
+        "level": "exploration",
+        "interpreters": PRODUCERS,
+        "rule": "S-SIG completely: (posonly{0,1,2 on 3.8+} x pos-or-kw{0,1,2} x kwonly{0,1,2} x *args{0,1} x **kw{0,1}) x {def, lambda, async def, generator, async generator, method} x 9 docstring shapes x parameter-is-a-cell{no,yes}, plus comprehensions/class bodies/modules, plus every function-like code object of the program grammar (Pa, Pc, repo sources; thorough: all strata and the stdlib corpus). Oracle: header reading of CPython's local layout, inspect.signature of a function built from the code, and CPython's own argument binding of a stub with the same header (positional/keyword/negative calls). distinct_nontrivial = distinct (signature, flags, first-constant type) triples of function-like code objects.",
+        "assumptions": TRUST + ["inspect's 'implicitN' presentation of comprehension parameters is undone (see DESIGN 9.2)"],
+        "required_reach": {"quick": ["param:POSITIONAL_ONLY@3.8,3.9,3.10", "param:POSITIONAL_OR_KEYWORD", "param:VAR_POSITIONAL", "param:KEYWORD_ONLY", "param:VAR_KEYWORD", "param:star+kwonly", "has-doc", "kind:GENERATOR", "kind:COROUTINE", "kind:ASYNC_GENERATOR", "kind:None", "nonfn", "sig-ok", "nonfn-ok"]},
+    },
+    "C11": {
+        "level": "exploration",
+        "interpreters": PRODUCERS,
+        "rule": "all 2^18 subsets of the flag bits CPython defines (dis.COMPILER_FLAG_NAMES + __future__ compiler flags, read from CPython, not from the library) converted to names and back, in chunks of 64 words each run in a freshly forked child (enum's pseudo-member cache); every word with exactly one of the 14 unknown bits x subsets of known flags of size <=2 (thorough: x all 2^18); header alterations of 13 base code objects: co_flags XOR every mask of Hamming weight <=2 over 32 bits (529 each), and every (argcount, posonlyargcount, kwonlyargcount) triple in 0..min(len(varnames),4) x {0, each single flag bit} that types.CodeType accepts. Oracle: from_code raises or to_code() is strictly identical to the altered object. distinct_nontrivial = distinct flag words + distinct (base, alteration) pairs built.",
+        "assumptions": TRUST,
+        "required_reach": {"quick": ["word-ok", "unknown-bit-raises", "reproduced", "from_code-raises"]},
+        "shards": {"quick": 16, "thorough": 16},
+    },
 }
 
 BASE_NOTE = (
@@ -132,6 +147,18 @@ MANIFEST_TEXT = {
         "design_ref": "DESIGN.md section 4 C05",
         "note": BASE_NOTE,
         "technique": "bounded exhaustive enumeration of programs; static reference reading plus differential execution with tracing",
+    },
+    "C04": {
+        "text": "Exhaustive over the signature-shape space S-SIG on each interpreter plus all function-like code of the program grammar; three independent readings of the calling convention (header layout, inspect.signature, real argument binding of a stub) decide each parameter's kind; docstring and kind against FunctionType.__doc__ and inspect's classifiers.",
+        "design_ref": "DESIGN.md section 4 C04",
+        "note": BASE_NOTE,
+        "technique": "exhaustive enumeration of signature shapes x function kinds x docstring shapes; CPython's binding as oracle",
+    },
+    "C11": {
+        "text": "Exhaustive over all 2^18 known flag words per interpreter, every single unknown bit mixed with known flags, and a deviation-bounded (Hamming <=2, all count triples) family of hand-altered headers; the oracle for altered objects is strict identity of the re-encoded object or an exception.",
+        "design_ref": "DESIGN.md section 4 C11",
+        "note": BASE_NOTE,
+        "technique": "exhaustive enumeration of flag words (2^18) and deviation-bounded header alterations; raise-or-reproduce oracle",
     },
     "C13": {
         "text": "Same exhaustive space; the block partition is compared with the jump-target set computed from CPython's reading: no empty block, exact starts, every later block targeted.",
